@@ -111,7 +111,8 @@ def corrupt(lexemes, starts, tape, n, late=False):
         kind = tape.wpick(LATE_KINDS, "late-corruption") if late else \
             tape.wpick([("delete", 4), ("duplicate", 3), ("swap", 3), ("stray", 3), ("del-bracket", 2),
                            ("trunc-lex", 2), ("trunc-bytes", 2), ("dup-block", 1), ("stray-toplevel", 2),
-                           ("misspell", 2), ("stray-qualifier", 1.5), ("sig-tail", 2), ("member-head", 1.5), ("drop-default", 1.5), ("mangle-include", 1)],
+                           ("misspell", 2), ("stray-qualifier", 1.5), ("sig-tail", 2), ("member-head", 1.5), ("drop-default", 1.5), ("mangle-include", 1),
+                           ("list-edge", 2.5)],
                           "corruption")
         i = tape.choose(len(lex), "pos")
         if kind == "delete":
@@ -188,6 +189,65 @@ def corrupt(lexemes, starts, tape, n, late=False):
                                             "head-token"))
             else:
                 kind = "noop"
+        elif kind == "list-edge":
+            # damage at the edge of a comma-separated list (argument, enumerator, template-parameter,
+            # instantiation lists): a dangling / leading / doubled comma, or the first / last element lost
+            OPEN, CLOSE = ("(", "{", "<"), (")", "}", ">")
+            how = tape.wpick([("comma-before-closer", 3), ("last-element-lost", 3), ("comma-after-opener", 2),
+                              ("first-element-lost", 2), ("comma-doubled", 1)], "list-edge-how")
+            commas = [k for k, t in enumerate(lex) if t == ","]
+            done = False
+            if how == "comma-before-closer":
+                idx = [k for k, t in enumerate(lex) if t in CLOSE and k > 0 and lex[k - 1] not in OPEN + (",", ";")]
+                if tape.bool(0.7, "closer-of-a-list") and commas:
+                    # prefer closers of lists that already have a comma (a real list)
+                    pref = []
+                    for c in commas:
+                        j = c + 1
+                        while j < len(lex) and lex[j] not in OPEN + CLOSE + (";",):
+                            j += 1
+                        if j < len(lex) and lex[j] in CLOSE and lex[j - 1] != ",":
+                            pref.append(j)
+                    idx = sorted(set(pref)) or idx
+                if idx:
+                    lex.insert(idx[tape.choose(len(idx), "which-closer")], ",")
+                    done = True
+            elif how == "comma-after-opener":
+                idx = [k for k, t in enumerate(lex) if t in OPEN and k + 1 < len(lex) and lex[k + 1] not in CLOSE + (",",)]
+                if idx:
+                    lex.insert(idx[tape.choose(len(idx), "which-opener")] + 1, ",")
+                    done = True
+            elif how == "last-element-lost" and commas:
+                cand = []
+                for c in commas:
+                    j = c + 1
+                    while j < len(lex) and lex[j] not in OPEN + CLOSE + (";", ","):
+                        j += 1
+                    if j < len(lex) and lex[j] in CLOSE and j > c + 1:
+                        cand.append((c, j))
+                if cand:
+                    c, j = cand[tape.choose(len(cand), "which-last")]
+                    del lex[c + 1:j]
+                    done = True
+            elif how == "first-element-lost" and commas:
+                cand = []
+                for c in commas:
+                    j = c - 1
+                    while j >= 0 and lex[j] not in OPEN + CLOSE + (";", ","):
+                        j -= 1
+                    if j >= 0 and lex[j] in OPEN and j < c - 1:
+                        cand.append((j, c))
+                if cand:
+                    j, c = cand[tape.choose(len(cand), "which-first")]
+                    del lex[j + 1:c]
+                    done = True
+            elif how == "comma-doubled" and commas:
+                lex.insert(commas[tape.choose(len(commas), "which-comma")], ",")
+                done = True
+            if not done:
+                kind = "noop"
+            else:
+                kind = "list-edge:" + how
         elif kind == "del-bracket":
             idx = [k for k, t in enumerate(lex) if t in ("{", "}", "(", ")")]
             if idx:
